@@ -31,7 +31,10 @@ type Solver struct {
 	NSat, NUnsat, NUnknown int
 	Time                   time.Duration
 	trace                  io.Writer
+	Buckets                [5]int
+	BucketT                [5]time.Duration
 	dead                   bool
+	curTimeout             int
 }
 
 func StartSolver(kind SolverKind, timeoutMs int) (*Solver, error) {
@@ -70,6 +73,7 @@ func (s *Solver) init() {
 		s.send("(set-logic ALL)\n")
 	} else {
 		s.send(fmt.Sprintf("(set-option :timeout %d)\n", s.timeout))
+		s.curTimeout = s.timeout
 	}
 	s.send("(set-option :produce-models true)\n")
 }
@@ -122,9 +126,36 @@ func (r SatResult) String() string { return [...]string{"unsat", "sat", "unknown
 
 // Check runs check-sat with extra (already defined) assumption expressions inside a push/pop.
 // If wantModel and the result is sat, values of the given variable names are returned.
+// SetTimeout changes the per-query timeout (z3 only; cvc5 keeps its command-line limit).
+func (s *Solver) SetTimeout(ms int) {
+	if s.kind == SCVC5 || ms == s.curTimeout {
+		return
+	}
+	s.curTimeout = ms
+	s.send(fmt.Sprintf("(set-option :timeout %d)\n", ms))
+}
+
 func (s *Solver) Check(defs string, assume []string, wantModel bool, vars []string) (SatResult, map[string]string, string) {
 	t0 := time.Now()
-	defer func() { s.Time += time.Since(t0) }()
+	defer func() {
+		d := time.Since(t0)
+		s.Time += d
+		b := 0
+		switch {
+		case d < 10*time.Millisecond:
+			b = 0
+		case d < 100*time.Millisecond:
+			b = 1
+		case d < time.Second:
+			b = 2
+		case d < 10*time.Second:
+			b = 3
+		default:
+			b = 4
+		}
+		s.Buckets[b]++
+		s.BucketT[b] += d
+	}()
 	if s.dead {
 		s.NUnknown++
 		return RUnknown, nil, "solver dead"
